@@ -130,7 +130,7 @@ def run_draw_campaign(camp, tier, seed, wd):
             traces.append({"id": i + 1, "pal": ["draws", "plain"], "events": [ev]})
     t1 = time.time()
     j = P.judge(traces, wd, module=camp["judge"][0], cfg=camp["judge"][1], name="tr_" + camp["name"], njvm=1)
-    print("  campaign %-28s configurations=%d draws=%d replay=%.1fs judge=%.1fs fails=%d"
+    print("  campaign %-28s configurations=%d draws=%d exec=%.1fs judge=%.1fs fails=%d"
           % (camp["name"], len(cfgs), K * len(cfgs), t1 - t0, time.time() - t1, len(j["fails"])), flush=True)
     summary = {"name": camp["name"], "behaviours_enumerated": len(cfgs), "behaviours_replayed": len(cfgs), "sampled": False,
                "gen": [], "gen_states": 0, "gen_transitions": 0, "traces": len(traces), "judge_states": j["states"],
